@@ -187,7 +187,7 @@ fn loop_traces(ctx: &mut Ctx) {
     is.add("VERIF.PROBE".to_string(), Instruction::new(probe));
     let cache = sorted_cache(&is);
     let judge = Judge { frame: true, reference: true };
-    let nprog = ctx.n(3000, 80000);
+    let nprog = ctx.n(8000, 80000);
     let nmax = ctx.n(6, 12) as i64;
     for k in 0..nprog as u64 {
         if !ctx.mine(k) {
@@ -338,7 +338,7 @@ fn single_steps(ctx: &mut Ctx) {
     let (mut is, names) = new_iset();
     let cache = sorted_cache(&is);
     let judge = Judge { frame: true, reference: true };
-    let n = ctx.n(12000, 300000);
+    let n = ctx.n(40000, 1000000);
     for k in 0..n as u64 {
         if !ctx.mine(k) {
             continue;
@@ -392,7 +392,7 @@ fn control_programs(ctx: &mut Ctx) {
         .filter(|n| !n.ends_with(".RAND") && *n != "EXEC.CMD" && *n != "NAME.RANDBOUNDNAME")
         .cloned()
         .collect();
-    let nprog = ctx.n(2500, 60000);
+    let nprog = ctx.n(8000, 150000);
     for k in 0..nprog as u64 {
         if !ctx.mine(k) {
             continue;
